@@ -4,7 +4,9 @@
 
   OBLIGATIONS (audited by `check` with `#print axioms`):
     eq_total, eq_iff_norm, eq_iff_atoms, eq_refl, eq_symm, eq_trans, eq_split_insensitive,
-    eq_empty_fragment_insensitive, eq_ignores_formatter, norm_normal
+    eq_empty_fragment_insensitive, eq_ignores_formatter, norm_normal,
+    render_spec, render_any_writer, render_recorded, lookup_first_wins, lookup_absent_iff,
+    render_owned_borrowed_same, render_same_of_eq
 -/
 import EmitModel.Lemmas.Template
 
@@ -110,6 +112,77 @@ theorem eq_ignores_formatter (pre post : List Part) (l : List UInt8) (f g : Opti
     | nil => simp [atoms]
     | cons p pre ih => cases p <;> simp [atoms, ih]
   simp [this]
+
+/-! ## Rendering (`Render::write`, `Part::write`, `Write` defaults; core/src/template.rs:306-319, 334-403, 570-591) -/
+
+/-- The default rendering (the `String` writer, `Display`/`to_string()`): the concatenation over the parts of
+    text verbatim | the first-wins property value, through the hole's formatter if it has one | `{label}` when the
+    property is absent — for any parts (empty, repeated, any bytes), any properties, any formatter table, appended
+    to whatever the writer already holds. (`partBytes` is this three-way case distinction, Lemmas/Template.lean.) -/
+theorem render_spec (tbl : Nat → Val → List UInt8) (props : List (List UInt8 × Val)) (parts : List Part)
+    (s : List UInt8) :
+    render (stringWriter tbl) props parts s = (s ++ (parts.map (partBytes tbl props)).flatten, true) :=
+  Template.render_spec tbl props parts s
+
+/-- To any writer: all `Render::write` does to a `template::Write` implementation, whatever its callbacks do, is to
+    feed it the callbacks of the parts (`partEv`: `write_text` | `write_hole_value` | `write_hole_fmt` |
+    `write_hole_label`, determined by part and properties alone) in order, stopping at the first `Err`. -/
+theorem render_any_writer {σ : Type} (w : Writer σ) (props : List (List UInt8 × Val)) (parts : List Part) (s : σ) :
+    render w props parts s = feed w (parts.map (partEv props)) s :=
+  Template.render_any_writer w props parts s
+
+/-- The harness's recording writer sees exactly those callbacks; failing on callback `k` it has seen the first `k`
+    and the error is propagated iff callback `k` exists. -/
+theorem render_recorded (props : List (List UInt8 × Val)) (parts : List Part) (failAt : Option Nat) :
+    render (recWriter failAt) props parts [] =
+      match failAt with
+      | none => (parts.map (partEv props), true)
+      | some k => ((parts.map (partEv props)).take k, decide (parts.length ≤ k)) :=
+  Template.render_recorded props parts failAt
+
+/-- First value wins: pairs after the first one with the hole's label are never looked at. -/
+theorem lookup_first_wins (l : List UInt8) (pre post : List (List UInt8 × Val)) (v : Val)
+    (h : ∀ kv ∈ pre, kv.1 ≠ l) : lookupFirst l (pre ++ (l, v) :: post) = some v :=
+  lookupFirst_first l pre post v h
+
+/-- A hole renders as `{label}` exactly when no pair has its label. -/
+theorem lookup_absent_iff (l : List UInt8) (props : List (List UInt8 × Val)) :
+    lookupFirst l props = none ↔ ∀ kv ∈ props, kv.1 ≠ l :=
+  lookupFirst_none_iff l props
+
+/-- `to_owned`, `by_ref` and the literal constructors are identities on the parts, hence on rendering (to any writer)
+    and on equality. -/
+theorem render_owned_borrowed_same (ps : List Part) :
+    toOwned ps = ps ∧ byRef ps = ps ∧
+    (∀ {σ : Type} (w : Writer σ) props s, render w props (toOwned ps) s = render w props ps s ∧
+        render w props (byRef ps) s = render w props ps s) ∧
+    (∀ t, literal t = [.text t]) ∧
+    (∀ b, eq (toOwned ps) b = eq ps b ∧ eq (byRef ps) b = eq ps b) := by
+  refine ⟨toOwned_id ps, byRef_id ps, ?_, fun _ => rfl, ?_⟩
+  · intro σ w props s; rw [toOwned_id, byRef_id]; exact ⟨rfl, rfl⟩
+  · intro b; rw [toOwned_id, byRef_id]; exact ⟨rfl, rfl⟩
+
+/-- The two halves fit: templates that compare equal and carry no formatters render identically for every property
+    set. (With formatters they need not — see `eq_ignores_formatter` and the example below.) -/
+theorem render_same_of_eq (tbl : Nat → Val → List UInt8) (a b : List Part) (h : eq a b = .ok true)
+    (ha : NoFmt a) (hb : NoFmt b) (props : List (List UInt8 × Val)) (s : List UInt8) :
+    render (stringWriter tbl) props a s = render (stringWriter tbl) props b s := by
+  rw [eq_iff_atoms] at h
+  simp only [Res.ok.injEq, decide_eq_true_eq] at h
+  rw [render_spec, render_spec, flatten_partBytes_of_noFmt tbl props a ha, flatten_partBytes_of_noFmt tbl props b hb, h]
+
+example : render (stringWriter fun _ v => [0x5b] ++ v.display ++ [0x5d])
+    [([0x78], .str [0x37]), ([0x78], .str [0x38])] [.text [0x61], .hole [0x78] none, .hole [0x78] (some 0), .hole [0x79] none] [] =
+    ([0x61, 0x37, 0x5b, 0x37, 0x5d, 0x7b, 0x79, 0x7d], true) := by decide
+/-- equal (label-wise) templates with different formatters render differently -/
+example : eq [.hole [0x78] none] [.hole [0x78] (some 0)] = .ok true ∧
+    render (stringWriter fun _ _ => [0x23]) [([0x78], .str [0x37])] [.hole [0x78] none] [] ≠
+    render (stringWriter fun _ _ => [0x23]) [([0x78], .str [0x37])] [.hole [0x78] (some 0)] [] := by
+  constructor
+  · rw [eq_iff_norm]; decide
+  · decide
+example : NoFmt [.text [0x61], .hole [0x78] none] := by
+  intro l f h; simp at h; exact h.2
 
 /-! Non-vacuity / sanity: the D12 reproducers now compare as the property demands, and unequal things stay unequal. -/
 example : eq [.text [0x61, 0xc3, 0xa9], .hole [0x78] none] [.text [0x61, 0x62], .hole [0x78] none] = .ok false := by
